@@ -880,4 +880,60 @@ print(json.dumps(res))
     return {"violates": bool(probs), "vector": p["vector"], "problems": probs[:4]}
 
 
-HANDLERS = {"c19": r_c19, "c13": r_c13, "c13_text": r_c13_text, "c13_except": r_c13_except, "c17": r_c17, "c08": r_c08, "c10": r_c10, "c11": r_c11, "c15": r_c15, "c12": r_c12, "c12_raw": r_c12_raw, "c18": r_c18, "parse_step": r_parse_step, "parse_pre": r_parse_pre, "mandatory": r_mandatory, "parse_comm": r_parse_comm, "relational": r_relational, "c09": r_c09, "macrovector4": r_macrovector4, "c07_single": r_c07_single, "c07_pair": r_c07_pair, "c07_foreign": r_c07_foreign}
+def r_c14(p):
+    cls = _cls(p["version"])
+    a, b = cls(p["a"]), cls(p["b"])
+    sa, sb = a.scores(), b.scores()
+    probs = []
+    names = ["base", "temporal", "environmental"]
+    for i, (x, y) in enumerate(zip(sa, sb)):
+        if p["version"] == 2 and i == 2:
+            continue
+        if x is None and y is None:
+            continue
+        if (x is None) != (y is None) or y < x:
+            probs.append("%s score %r -> %r" % (names[i], x, y))
+    return {"violates": bool(probs), "a": p["a"], "b": p["b"], "scores_a": repr(sa), "scores_b": repr(sb), "problems": probs}
+
+
+def r_c14_table(p):
+    """a non-monotone lookup entry: find a pair of vectors one severity step apart that shows it"""
+    import random
+
+    import cvss
+    from spec import grammar as G
+
+    hi, lo = p["higher"], p["lower"]
+    rng = random.Random(7)
+    g = G.V4
+    order = {"AV": "PLAN", "AC": "HL", "AT": "PN", "PR": "HLN", "UI": "APN", "VC": "NLH", "VI": "NLH", "VA": "NLH", "SC": "NLH", "SI": "NLH", "SA": "NLH", "E": "UPA", "CR": "LMH", "IR": "LMH", "AR": "LMH"}
+    found = None
+    for _ in range(400000):
+        parts = {}
+        for met, vals in g["metrics"]:
+            if met in g["mandatory"] or (met in ("E", "CR", "IR", "AR") and rng.random() < 0.8):
+                parts[met] = rng.choice([v for v in vals if v != "X"])
+        def vec(d):
+            return "CVSS:4.0/" + "/".join(k + ":" + d[k] for k, _ in g["metrics"] if k in d)
+        o = cvss.CVSS4(vec(parts))
+        if o.macroVector() != lo:
+            continue
+        for met, od in order.items():
+            cur = parts.get(met, {"E": "A", "CR": "H", "IR": "H", "AR": "H"}.get(met))
+            i = od.index(cur)
+            if i + 1 < len(od):
+                d2 = dict(parts)
+                d2[met] = od[i + 1]
+                o2 = cvss.CVSS4(vec(d2))
+                if o2.base_score < o.base_score:
+                    found = (vec(parts), o.base_score, vec(d2), o2.base_score)
+                    break
+        if found:
+            break
+    if found:
+        return {"violates": True, "a": found[0], "b": found[2], "scores": [found[1], found[3]], "what": "more severe value lowers the score"}
+    tbl = dict(cvss.constants4.CVSS_LOOKUP_GLOBAL)
+    return {"violates": tbl.get(lo, 0) > tbl.get(hi, 0), "what": "lookup[%s]=%r > lookup[%s]=%r (no concrete pair of vectors found by the search)" % (lo, tbl.get(lo), hi, tbl.get(hi))}
+
+
+HANDLERS = {"c14": r_c14, "c14_table": r_c14_table, "c19": r_c19, "c13": r_c13, "c13_text": r_c13_text, "c13_except": r_c13_except, "c17": r_c17, "c08": r_c08, "c10": r_c10, "c11": r_c11, "c15": r_c15, "c12": r_c12, "c12_raw": r_c12_raw, "c18": r_c18, "parse_step": r_parse_step, "parse_pre": r_parse_pre, "mandatory": r_mandatory, "parse_comm": r_parse_comm, "relational": r_relational, "c09": r_c09, "macrovector4": r_macrovector4, "c07_single": r_c07_single, "c07_pair": r_c07_pair, "c07_foreign": r_c07_foreign}
